@@ -72,6 +72,8 @@ pub fn run(ctx: &Ctx) -> Report {
                 rep.add("transitions", v["transitions"].as_u64().unwrap_or(0));
                 rep.add("traces_validated_against_impl", v["replays"].as_u64().unwrap_or(0));
                 rep.add("schedules_executed", v["schedules_executed"].as_u64().unwrap_or(0));
+                rep.add("schedules_reexecuted_for_determinism", v["schedules_reexecuted_for_determinism"].as_u64().unwrap_or(0));
+                rep.add("schedule_reexecutions_diverged", v["schedule_reexecutions_diverged"].as_u64().unwrap_or(0));
                 rep.set("background_rotation_build", v.clone());
             }
             if v["kind"] == "violation" {
@@ -115,6 +117,6 @@ pub fn child_bg(args: &[String]) -> i32 {
     for v in rep.violations() {
         println!("{}", serde_json::json!({"kind": "violation", "sig": v.signature, "detail": v.detail, "case": v.replay}));
     }
-    println!("{}", serde_json::json!({"kind": "stat", "feature_background_rotation": cfg!(feature = "background_rotation"), "worlds": ws.len(), "states": rep.get("states"), "transitions": rep.get("transitions"), "replays": rep.get("traces_validated_against_impl"), "schedules_executed": rep.get("schedules_executed"), "distinct_schedule_outcomes": rep.get("distinct_schedule_outcomes"), "schedule_explorations": rep.coverage.get("schedule_explorations")}));
+    println!("{}", serde_json::json!({"kind": "stat", "feature_background_rotation": cfg!(feature = "background_rotation"), "worlds": ws.len(), "states": rep.get("states"), "transitions": rep.get("transitions"), "replays": rep.get("traces_validated_against_impl"), "schedules_executed": rep.get("schedules_executed"), "schedules_reexecuted_for_determinism": rep.get("schedules_reexecuted_for_determinism"), "schedule_reexecutions_diverged": rep.get("schedule_reexecutions_diverged"), "distinct_schedule_outcomes": rep.get("distinct_schedule_outcomes"), "schedule_explorations": rep.coverage.get("schedule_explorations")}));
     0
 }
